@@ -8,8 +8,8 @@ PROPS = {
     'C04': {'units': ['tile_manager', 'pmtiles'], 'witness': 'C04'},
     'C05': {'units': ['directory', 'varint_dep'], 'kani': ['varint'], 'witness': 'C05'},
     'C06': {'units': ['write_directories', 'directory'], 'witness': 'C06'},
-    'C07': {'units': ['pmtiles'], 'kani': ['tile_id'], 'witness': 'C07'},
-    'C08': {'units': ['directory', 'tile_manager', 'read_directories', 'header', 'pmtiles', 'write_directories', 'varint_dep'], 'witness': 'C08'},
+    'C07': {'units': ['pmtiles', 'tile_id'], 'kani': ['tile_id'], 'witness': 'C07'},
+    'C08': {'units': ['directory', 'tile_manager', 'read_directories', 'header', 'pmtiles', 'write_directories', 'varint_dep', 'tile_id'], 'witness': 'C08'},
     'C09': {'units': ['header', 'pmtiles'], 'kani': ['latlng'], 'witness': 'C09'},
     'C10': {'units': ['tile_manager'], 'witness': 'C10'},
     'C11': {'units': ['read_directories', 'pmtiles'], 'witness': 'C11'},
